@@ -792,6 +792,7 @@ FAMS = {
     "J": ({"R": 2, "PARENTS": 3, "L10": M(0, 16, 19, 21), "L20": M(16, 19), "L11": M(0, 1, 4, 19)}, "J: tupleset p: [doc, doc with k, org] (duplicate conditioned parent followed by another parent)"),
     "J4": ({"R": 2, "PARENTS": 4, "L10": M(0, 16, 19, 21), "L20": M(16, 19, 21), "L11": M(0, 1, 4, 19)}, "J4: tupleset p: [org, org with k, doc] (the own type listed after a duplicate conditioned parent)"),
     "J5": ({"R": 2, "PARENTS": 5, "L10": M(0, 16, 19, 21), "L20": M(16, 19), "L11": M(0, 1, 4, 19)}, "J5: tupleset p: [doc, doc with k, bare] (last parent type defines no relation)"),
+    "J6": ({"R": 2, "PARENTS": 6, "L10": M(0, 16, 19, 21), "L20": M(16, 19), "L11": M(0, 1, 4, 19)}, "J6: tupleset p: [bare, doc] (a parent type that defines no relation listed in front of the own type)"),
     "K": ({"R": 2, "L10": M(0, 1, 7, 8, 13, 14, 15), "L20": M(16, 19), "REV0": 1, "L11": M(0, 4, 16)}, "K: swapped operand order (computed userset before the direct assignment), conditioned/duplicate restrictions"),
     "N": ({"R": 3, "L10": M(16, 17), "L20": M(16, 17), "OP0": 2, "L11": M(0, 1), "L21": M(21), "OP1": 1, "L12": M(0, 1)},
           "N: a = y | z | y and z | z and y, b = [user]|[user,employee] optionally `or b from p` (recursive), c = [user]|[user,employee] (48 models)"),
@@ -837,7 +838,7 @@ def kernels():
 
 
 RA, RR, FI, AL = (ROOT_ALL, "all root orders of AssignWeights"), (ROOT_ROT, "every start node of AssignWeights (rotations + reverse)"), (FIRST, "first order"), (ALL, "all orders of all maps")
-THOROUGH_GRAPH = [("J4", *RR), ("J5", *RR), ("Q", *RR), ("N", *RA), ("B", *RA), ("D", *FI), ("E", *RA), ("P", *RA), ("A", *AL), ("G", *RR), ("H", *RA), ("K", *RA), ("L", *RA), ("J", *RR)]
+THOROUGH_GRAPH = [("J4", *RR), ("J5", *RR), ("J6", *RR), ("Q", *RR), ("N", *RA), ("B", *RA), ("D", *FI), ("E", *RA), ("P", *RA), ("A", *AL), ("G", *RR), ("H", *RA), ("K", *RA), ("L", *RA), ("J", *RR)]
 
 
 def c04(tier):
@@ -845,7 +846,7 @@ def c04(tier):
 
 
 def c05(tier):
-    graph_check("C05", 5, tier, [("A", *AL), ("B", *FI), ("J", *FI), ("J4", *FI), ("J5", *FI), ("Q", *FI), ("G", *RR), ("L", *RR), ("H", *RR)], THOROUGH_GRAPH, reach=["return"])
+    graph_check("C05", 5, tier, [("A", *AL), ("B", *FI), ("J", *FI), ("J4", *FI), ("J5", *FI), ("J6", *FI), ("Q", *FI), ("G", *RR), ("L", *RR), ("H", *RR)], THOROUGH_GRAPH, reach=["return"])
 
 
 def c06(tier):
@@ -855,7 +856,7 @@ def c06(tier):
 
 
 def c10(tier):
-    graph_check("C10", 10, tier, [("B", *FI), ("P", *FI), ("J", *FI), ("J4", *FI), ("J5", *FI), ("K", *FI), ("H", *FI), ("G", *FI), ("Q", *FI)], [("D", *FI), ("E", *FI), ("P", *RA), ("L", *FI), ("G", *FI), ("H", *FI), ("J", *FI), ("K", *FI)])
+    graph_check("C10", 10, tier, [("B", *FI), ("P", *FI), ("J", *FI), ("J4", *FI), ("J5", *FI), ("J6", *FI), ("K", *FI), ("H", *FI), ("G", *FI), ("Q", *FI)], [("D", *FI), ("E", *FI), ("P", *RA), ("L", *FI), ("G", *FI), ("H", *FI), ("J", *FI), ("K", *FI)])
 
 
 def c11(tier):
@@ -1059,10 +1060,10 @@ def c17(tier):
     def J(h, famname, pol=C17_SCHED, **extra):
         return T("graph", h, dict(FAMS[famname][0], **extra), **pol)
     q = tier == "quick"
-    jobs = [J("VerifC17_Faithful", "A"), J("VerifC17_Faithful", "B"), J("VerifC17_Faithful", "H"), J("VerifC17_Faithful", "J"), J("VerifC17_Faithful", "J5"), J("VerifC17_Faithful", "K"),
+    jobs = [J("VerifC17_Faithful", "A"), J("VerifC17_Faithful", "B"), J("VerifC17_Faithful", "H"), J("VerifC17_Faithful", "J"), J("VerifC17_Faithful", "J5"), J("VerifC17_Faithful", "J6"), J("VerifC17_Faithful", "J4"), J("VerifC17_Faithful", "K"),
             J("VerifC17_Reversed", "A", PAIRS=4, WINDOWS=3), J("VerifC17_Reversed", "W", PAIRS=4, WINDOWS=3), J("VerifC17_Reversed", "N", PAIRS=4, WINDOWS=3),
             J("VerifC17_Stable", "W", C17_WIDE),
-            J("VerifC17_Stable", "A"), J("VerifC17_Stable", "B"), J("VerifC17_Stable", "N"),
+            J("VerifC17_Stable", "A"), J("VerifC17_Stable", "B"), J("VerifC17_Stable", "N"), T("graph", "VerifC17_StableNames", {}, **C17_SCHED),
             J("VerifC17_Cycles", "A"), J("VerifC17_Cycles", "C"), J("VerifC17_Cycles", "H")]
     if not q:
         jobs += [J("VerifC17_Faithful", "Q"), J("VerifC17_Faithful", "G"), J("VerifC17_Faithful", "E"), J("VerifC17_Faithful", "L"), J("VerifC17_Faithful", "P"),
@@ -1070,7 +1071,7 @@ def c17(tier):
                  J("VerifC17_Stable", "H"), J("VerifC17_Stable", "G"), J("VerifC17_Stable", "Q"),
                  J("VerifC17_Cycles", "E"), J("VerifC17_Cycles", "B")]
     out = engine_a_check("C17", tier, jobs,
-                         {"VerifC17_Faithful": ["built"], "VerifC17_Reversed": ["reversed", "paths"], "VerifC17_Stable": ["rendered"], "VerifC17_Cycles": ["acyclic", "compile-time-cycle", "other-cycle"]},
+                         {"VerifC17_Faithful": ["built"], "VerifC17_Reversed": ["reversed", "paths"], "VerifC17_Stable": ["rendered"], "VerifC17_StableNames": ["rendered"], "VerifC17_Cycles": ["acyclic", "compile-time-cycle", "other-cycle"]},
                          ["models of the stated families only (type doc with relations a,b[,c] and tupleset p; user, employee terminal types; well-formed rewrites)",
                           "gonum (multi.DirectedGraph, topo, encoding/dot) is executed as it is, except its map iterator: graph/iterator/map.go (unsafe + go:linkname into the runtime) is replaced, for the executor and for the native replay alike, by harness/dep/gonum_iterator/map.go - same unexported interface, entries produced in the order of a plain `range`",
                           "schedule = every order of the relations map in parseModel and of every map of parallel lines gonum iterates inside NewAuthorizationModelGraph/Reversed/GetDOT, and ascending or descending ULIDs; the 'wide' jobs also rotate gonum's node and edge maps inside Reversed; other map iterations take insertion order",
@@ -1078,7 +1079,8 @@ def c17(tier):
                           "edge conditions are compared only through the reversal (the property does not state them for the build); classification of cycles other than pure computed ones is left open by the property",
                           "path duality: all pairs of labels (sources in windows of PAIRS labels, every window explored when there are at most 12 labels) plus a label that does not exist"], "",
                          repeat_native=40,
-                         bounds={"families": ", ".join(sorted(set(FAMILY_TEXT[n] for n in ("A", "B", "C", "H", "J", "J5", "K", "N", "W") + (() if q else ("Q", "G", "E", "L", "P")))))})
+                         bounds={"names": "three relations named by any 3 of {a, A, b, ab, B, a_b, aB} (names that differ in case only or are prefixes of each other), 3 operators",
+                                 "families": ", ".join(sorted(set(FAMILY_TEXT[n] for n in ("A", "B", "C", "H", "J", "J4", "J5", "J6", "K", "N", "W") + (() if q else ("Q", "G", "E", "L", "P")))))})
     out.finish()
 
 
